@@ -219,4 +219,5 @@ def run(col, configs, tier):
         guarded(col, X.rule_debug_buffer_belief, facts)
         guarded(col, X.rule_radix_digit_clamp, facts)
         guarded(col, X.rule_u128_count_chunks, facts)
+        guarded(col, X.rule_naive_count_stages, facts)
         guarded(col, F.rule_entry_validation, facts)
